@@ -3,7 +3,7 @@
    [crc] is any function list N -> N; [crc32c] is CRC32-Castagnoli itself (model/NeedleCrc.v,
    bit by bit; compared with the Go library's value on every byte string of every case). *)
 From Coq Require Import List NArith Bool.
-From SW Require Import model.Needle model.NeedleCrc proof.NeedleProofs proof.NeedleCrcProofs proof.NeedleScanProofs.
+From SW Require Import model.Needle model.NeedleCrc model.NeedleStream proof.NeedleProofs proof.NeedleCrcProofs proof.NeedleScanProofs proof.NeedleStreamProofs.
 Import ListNotations.
 Local Open Scope N_scope.
 
@@ -215,6 +215,150 @@ Theorem c02_decoder_variants_agree : forall ext body d, body = [] \/ 4 <= len bo
   read_v2_x ext body d = read_v2 body d.
 Proof. exact read_v2_x_eq. Qed.
 Print Assumptions c02_decoder_variants_agree.
+
+(* ---------- which writers and readers of records the theorems cover ----------
+   Producers of on-disk needle records in weed/storage (grep CookieToBytes / NeedleIdToBytes /
+   prepareWriteBuffer / StreamWrite / WriteNeedleBlob):
+   1. Needle.prepareWriteBuffer / Needle.Append ([encode]): every HTTP / gRPC write, the
+      scan-based Volume.Compact (re-append of every visited needle, [scan_copy]), replication.
+      Theorems c02_aligned .. c02_scan_torn above.
+   2. Volume.StreamWrite ([stream_encode], the volume server's -tcp put path): a VERSION-3
+      record with header (cookie, id, Size = 4 + dataSize + 1), DataSize, the data as io.Copy
+      moved them from the reader, ONE flags byte, the checksum ACCUMULATED by CRCwriter over
+      the Write calls, AppendAtNs, padding.  It writes NO name, mime, last-modified, TTL or
+      pairs whatever the flags byte announces, and (unlike Append) it also writes the 5-byte
+      body for empty data.  Theorems c02_stream_* below: the record is 8-aligned, decodes to
+      the same blob and passes the CRC check for every data length (zero included), every
+      flags byte and every way the reader cuts the data into pieces; with no field flag it is
+      byte for byte [encode 3] of [stream_needle], so the scan and CRC-detection theorems
+      above apply to it.
+   3. needle.WriteNeedleBlob / Volume.WriteNeedleBlob ([restamp]): a raw blob read with
+      ReadNeedleBlob on another server, appended with a fresh timestamp (volume.check.disk).
+      Theorem c02_restamp_encode.
+   Raw record bytes are also copied WITHOUT being decoded by the index-based compaction
+   (Volume.Compact2 / copyDataBasedOnIndexFile), the incremental backup / tail
+   (volume_backup.go, BinarySearchByAppendAtNs + raw copy) and makeupDiff of CommitCompact:
+   these are covered by their own properties (C04 compaction is invisible to readers, C37
+   incremental backup converges to the source); erasure coding re-slices the .dat bytes (C06);
+   the mount's chunk cache stores chunk bytes in needle-map-indexed cache volumes of its own
+   (C31).  Consumers: Needle.ReadData / ReadBytes (CRC compare),
+   ScanVolumeFileFrom (no compare: finding 1), Volume.StreamRead (no compare: finding 2). *)
+
+(* CRCwriter: the checksum after any sequence of Write calls is the CRC32-C of everything
+   written - however the data were cut *)
+Theorem c02_crc_writer_accumulates : forall chunks,
+  crc_writer crc32c_update chunks = crc32c (concat chunks).
+Proof. exact crc_writer_whole. Qed.
+Print Assumptions c02_crc_writer_accumulates.
+
+Theorem c02_crc_writer_split_irrelevant : forall szs l,
+  crc_writer crc32c_update (chunks_of szs l) = crc32c l.
+Proof. exact crc_writer_split_irrelevant. Qed.
+Print Assumptions c02_crc_writer_split_irrelevant.
+
+(* a stream-written record is as long as GetActualSize of its index entry says: 8-aligned *)
+Theorem c02_stream_aligned : forall upd c i fl ds chunks ts, len (concat chunks) = ds ->
+  len (stream_encode upd c i fl ds chunks ts) = actual_size (stream_size ds) 3 /\
+  len (stream_encode upd c i fl ds chunks ts) mod 8 = 0.
+Proof. exact stream_aligned. Qed.
+Print Assumptions c02_stream_aligned.
+
+(* ROUND TRIP of the stream writer, any checksum whose Update accumulates: ReadData at the
+   record's offset inside any file returns cookie, id, the data, the flags byte, the checksum
+   of the WHOLE data and the timestamp with status ok (the CRC compare passed) - any data
+   length including zero, any flags byte, any cut into Write calls *)
+Theorem c02_stream_roundtrip : forall crc upd,
+  (forall chunks, crc_writer upd chunks = crc (concat chunks)) ->
+  forall c i fl chunks ts pre post,
+  c < 2 ^ 32 -> i < 2 ^ 64 -> stream_size (len (concat chunks)) < 2 ^ 31 -> ts < 2 ^ 64 ->
+  read_data crc (pre ++ stream_encode upd c i fl (len (concat chunks)) chunks ts ++ post) (len pre)
+            (stream_size (len (concat chunks))) 3 =
+    (stream_dneedle c i fl (concat chunks) (crc (concat chunks)) ts, SOk).
+Proof. exact stream_read_data. Qed.
+Print Assumptions c02_stream_roundtrip.
+
+(* ... and with the real CRC32-C and CRC.Update, no assumption left, the data [d] cut after
+   any sizes [szs] *)
+Theorem c02_stream_roundtrip_crc32c : forall c i fl szs d ts pre post,
+  c < 2 ^ 32 -> i < 2 ^ 64 -> stream_size (len d) < 2 ^ 31 -> ts < 2 ^ 64 ->
+  read_data crc32c (pre ++ stream_encode crc32c_update c i fl (len d) (chunks_of szs d) ts ++ post) (len pre)
+            (stream_size (len d)) 3 =
+    (stream_dneedle c i fl d (crc32c d) ts, SOk).
+Proof. exact stream_roundtrip_crc32c. Qed.
+Print Assumptions c02_stream_roundtrip_crc32c.
+
+(* with no field-announcing flag and some data, the stream writer's bytes are Append's bytes
+   for [stream_needle] (which is a well-formed record: rec_ok), so c02_scan, c02_scan_torn,
+   c02_crc_detects, c02_crc32c_burst_detected speak about stream-written records too *)
+Theorem c02_stream_is_encode : forall upd c i fl chunks ts,
+  no_field_flags fl = true -> concat chunks <> [] ->
+  stream_encode upd c i fl (len (concat chunks)) chunks ts =
+    encode 3 (stream_needle c i fl (concat chunks) (crc_writer upd chunks) ts).
+Proof. exact stream_is_encode. Qed.
+Print Assumptions c02_stream_is_encode.
+
+Theorem c02_stream_rec_ok : forall c i fl d ck ts, no_field_flags fl = true -> d <> [] ->
+  c < 2 ^ 32 -> i < 2 ^ 64 -> stream_size (len d) < 2 ^ 31 -> ts < 2 ^ 64 ->
+  rec_ok (stream_needle c i fl d ck ts).
+Proof. exact stream_needle_rec_ok. Qed.
+Print Assumptions c02_stream_rec_ok.
+
+(* self-checking, stream-written record, real checksum: one altered data byte is reported by
+   ReadBytes *)
+Theorem c02_stream_flip_detected : forall c i fl szs d ts pos mask,
+  no_field_flags fl = true -> c < 2 ^ 32 -> i < 2 ^ 64 -> stream_size (len d) < 2 ^ 31 -> ts < 2 ^ 64 ->
+  bytes_ok d -> pos < len d -> 0 < mask < 256 ->
+  snd (read_bytes crc32c (flip_byte (stream_encode crc32c_update c i fl (len d) (chunks_of szs d) ts) (20 + pos) mask)
+                  (stream_size (len d)) 3) = SCrc.
+Proof. exact stream_flip_detected. Qed.
+Print Assumptions c02_stream_flip_detected.
+
+(* ---------- Volume.StreamRead is NOT self-checking (known finding 2) ---------- *)
+(* PARTIAL (trigger: the data bytes of the record were altered): on the record as written
+   StreamRead hands out DataSize and the written data *)
+Theorem c02_stream_read_partial : forall upd c i fl chunks ts pre post,
+  len (concat chunks) < 2 ^ 32 ->
+  stream_read (pre ++ stream_encode upd c i fl (len (concat chunks)) chunks ts ++ post) (len pre) =
+    be_encode 4 (len (concat chunks)) ++ concat chunks.
+Proof. exact stream_read_written. Qed.
+Print Assumptions c02_stream_read_partial.
+
+(* the defect: overwrite the data bytes in place by ANY d' - StreamRead returns d' *)
+Theorem c02_stream_read_returns_altered : forall upd c i fl chunks ts pre post d',
+  len d' = len (concat chunks) -> len d' < 2 ^ 32 ->
+  stream_read (pre ++ overwrite_data (stream_encode upd c i fl (len (concat chunks)) chunks ts) (len (concat chunks)) d' ++ post)
+              (len pre) = be_encode 4 (len d') ++ d'.
+Proof. exact stream_read_returns_altered. Qed.
+Print Assumptions c02_stream_read_returns_altered.
+
+(* FULL statement (altered data are not handed out) REFUTED *)
+Theorem c02_stream_read_self_checking_refuted : ~ stream_read_self_checking.
+Proof. exact stream_read_self_checking_refuted. Qed.
+Print Assumptions c02_stream_read_self_checking_refuted.
+
+(* the witness (harness case 5), also the non-vacuity example of the stream theorems: "hello"
+   written in two pieces after the super block round-trips and StreamRead returns it; after
+   flipping the lowest bit of 'h' ReadData answers the CRC error, StreamRead "iello" *)
+Theorem c02_stream_witness :
+  read_data crc32c stream_witness_file 8 10 3
+    = (stream_dneedle 4660 1 0 [104; 101; 108; 108; 111] (crc32c [104; 101; 108; 108; 111]) 5, SOk) /\
+  stream_read stream_witness_file 8 = [0; 0; 0; 5; 104; 101; 108; 108; 111] /\
+  snd (read_data crc32c (flip_byte stream_witness_file 28 1) 8 10 3) = SCrc /\
+  stream_read (flip_byte stream_witness_file 28 1) 8 = [0; 0; 0; 5; 105; 101; 108; 108; 111].
+Proof. exact stream_witness_computed. Qed.
+Print Assumptions c02_stream_witness.
+
+(* ---------- WriteNeedleBlob ---------- *)
+(* a record copied as a raw blob and re-stamped is the record of the same needle with the new
+   timestamp (so it round-trips by c02_roundtrip_in_file); version 2 copies verbatim *)
+Theorem c02_restamp_encode : forall n ts, enc_okb n = true ->
+  restamp (encode 3 n) (body_size n) ts 3 = encode 3 (n_set_append n ts).
+Proof. exact restamp_encode. Qed.
+Print Assumptions c02_restamp_encode.
+
+Theorem c02_restamp_v2 : forall blob size ts, restamp blob size ts 2 = blob.
+Proof. exact restamp_v2. Qed.
+Print Assumptions c02_restamp_v2.
 
 (* non-vacuity: a version-3 needle with every defined flag set and the real CRC32-C satisfies
    all the hypotheses, is 8-aligned, round-trips, is found by the scan after an 8-byte super
